@@ -270,6 +270,7 @@ def main(argv=None):
     ap.add_argument("--workers", type=int, default=int(os.environ.get("VERIF_WORKERS", "0")) or None)
     ap.add_argument("--no-evidence", action="store_true")
     ap.add_argument("--no-minimise", action="store_true")
+    ap.add_argument("--dump-digests", help="write {run index: event-log digest} as JSON (determinism self-test)")
     args = ap.parse_args(argv)
     prop = args.prop.upper()
     sys.path.insert(0, ROOT)
@@ -365,6 +366,9 @@ def main(argv=None):
         finally:
             for f in futs:
                 f.cancel()
+    if args.dump_digests:
+        with open(args.dump_digests, "w") as f:
+            json.dump({str(k): v for k, v in sorted(digests.items())}, f)
     if errors:
         i, seed, tb = errors[0]
         print(f"HARNESS-ERROR exception in the simulator at run {i} (seed {seed}):\n{tb}")
